@@ -115,3 +115,17 @@ def replay_generic(path: str) -> int:
         return 1
     print("spec verdict: accepted (does not reproduce)")
     return 0
+
+
+def t1_check(chk: core.Check, texts, name: str) -> None:
+    """Theorem T1 on the given texts: ABNF.tla (the RFC grammar held as data, generic recogniser) and
+    Syntax.tla (recursive-descent parser, strict mode) accept the same strings.  A disagreement means
+    the specification itself cannot be trusted: machinery failure, not a verdict about the code."""
+    texts = list(dict.fromkeys(texts))
+    recs = [{"op": "t1", "q": core.enc_text(t)} for t in texts]
+    rej, st = core.validate_records("Trace", recs, name=name, timeout=3000)
+    chk.add_stats(f"T1 (ABNF-as-data recogniser = Syntax!Parse) on {len(texts)} texts", st)
+    chk.notes["T1_texts"] = len(texts)
+    if rej:
+        bad = [(texts[r["id"]], r["detail"]) for r in rej[:5]]
+        raise core.MachineryError(f"T1 fails: the two formulations of the RFC 9535 syntax disagree on {len(rej)} texts, e.g. {bad}")
